@@ -15,6 +15,10 @@ from __future__ import annotations
 import os
 import random
 
+# tiny matrices, many worker processes: multi-threaded BLAS only oversubscribes the machine
+for _v in ("OMP_NUM_THREADS", "OPENBLAS_NUM_THREADS", "MKL_NUM_THREADS"):
+    os.environ.setdefault(_v, "1")
+
 ID = "C07"
 DRIVER = "drv_c07"
 LEAN_TARGETS = ["PharmpyProofs.C07.Properties", "drv_c07"]
@@ -205,7 +209,7 @@ def shrink(case):
 
 def worker_init():
     global sympy, pm, Assignment, Statements, Expr, Compartment, CompartmentalSystemBuilder, CompartmentalSystem
-    global Bolus, output, exprconv, U, BASES, EXAMPLES
+    global Bolus, output, exprconv, U, EV, BASES, EXAMPLES
     import sympy  # noqa
     import pharmpy.modeling as pm  # noqa
     from pharmpy.basic import Expr  # noqa
@@ -213,6 +217,7 @@ def worker_init():
                                CompartmentalSystemBuilder, Statements, output)
     from harness.common import exprconv  # noqa
     from harness.corr import c07_util as U  # noqa
+    from harness.corr import c07_eval as EV  # noqa
     pheno = pm.load_example_model("pheno")
     g = pm.convert_model(pheno, "generic")
     BASES = {"plain": g, "fixed": pm.fix_parameters_to(g, {"COVAPGR": 0.5}),
@@ -429,6 +434,10 @@ def run_prog(case, drv):
         k2, m2 = _extractors(M, w, drv, rng, seed, tags)
         k += k2
         mon += m2
+        if "obs-safe" in tags:
+            k3, m3 = EV.run(pm, Expr, M, w, drv, seed, tags)
+            k += k3
+            mon += m3
     return {"k": k, "mon": mon, "tags": tags, "nontrivial": bool(changed)}
 
 
@@ -860,6 +869,10 @@ def run_model(case, drv):
         k += k2
         mon += m2
         tags.append("r:extractors")
+        if "obs-safe" in tags:
+            k3, m3 = EV.run(pm, Expr, m, wv, drv if wv is not None else None, seed, tags, what=f"{case['base']}+{case['pre']}: ")
+            k += k3
+            mon += m3
     return {"k": k, "mon": mon, "tags": tags, "nontrivial": bool(changed)}
 
 
